@@ -247,6 +247,7 @@ func (c *Ctx) fnKey(fn *ssa.Function) string {
 }
 
 func (c *Ctx) ifaceKey(recv types.Type, method string) string {
+	recv = types.Unalias(recv)
 	if n, ok := recv.(*types.Named); ok {
 		pp := ""
 		if n.Obj().Pkg() != nil {
@@ -515,7 +516,7 @@ func (c *Ctx) goTypeOf(s string, pkg *types.Package) types.Type {
 	if !ok {
 		panic(genErr("sort %q: %s is not a type", s, name))
 	}
-	return tn.Type()
+	return types.Unalias(tn.Type())
 }
 
 func (c *Ctx) goTypeOfExpr(x Expr, pkg *types.Package) types.Type {
@@ -600,9 +601,129 @@ func (c *Ctx) compiledSpec(sf *SpecFun) *compiledSpec {
 	panic(genErr("spec %s: heap parameter inference did not converge", sf.Name))
 }
 
-// prelude: registry prelude + heap-independent helper functions + specs + axioms
-func (c *Ctx) prelude() string {
-	// compile axioms first so that everything they need is registered
+// lemmaFormula compiles a lemma to (binders, requires, ensures, triggers).
+func (c *Ctx) lemmaFormula(l *Lemma, suffix string) (binders []string, req, ens string, trig string) {
+	file := c.specFile["lemma:"+l.Name]
+	var pkg *types.Package
+	if file != nil && file.PkgPath != "" {
+		pkg = c.typesPkgs[file.PkgPath]
+	}
+	saved := c.curFile
+	c.curFile = file
+	defer func() { c.curFile = saved }()
+	env := &Env{c: c, specMode: true, heapParams: map[string]bool{}, vars: map[string]TVal{}, pkg: pkg, file: file}
+	for _, p := range l.Params {
+		ty := c.specSort(p.Sort, pkg)
+		n := "m_" + p.Name + suffix
+		env.vars[p.Name] = TVal{term: n, ty: ty}
+		binders = append(binders, "("+n+" "+ty.sort+")")
+	}
+	var rs, es []string
+	for _, r := range l.Requires {
+		rs = append(rs, env.boolExpr(r.E))
+	}
+	for _, e := range l.Ensures {
+		es = append(es, env.boolExpr(e.E))
+	}
+	var ts []string
+	for _, t := range l.Triggers {
+		ts = append(ts, env.eval(t.E).term)
+	}
+	var hs []string
+	for h := range env.heapParams {
+		hs = append(hs, h)
+	}
+	sort.Strings(hs)
+	for _, h := range hs {
+		binders = append(binders, fmt.Sprintf("(hp_%s (Array Ref %s))", heapName(h), h))
+	}
+	if len(ts) > 0 {
+		trig = ":pattern (" + strings.Join(ts, " ") + ")"
+	}
+	return binders, and(rs...), and(es...), trig
+}
+
+func (c *Ctx) lemmaAxiom(l *Lemma) string {
+	b, req, ens, trig := c.lemmaFormula(l, "")
+	body := implies(req, ens)
+	if trig != "" {
+		body = "(! " + body + " " + trig + ")"
+	}
+	return fmt.Sprintf("(assert (forall (%s) %s)) ; lemma %s", strings.Join(b, " "), body, l.Name)
+}
+
+// lemmaObligations: the proof obligation of a lemma.  With `induction k` the
+// induction hypothesis (the lemma for all smaller non-negative values of k,
+// all other parameters universally quantified) is assumed.
+func (c *Ctx) lemmaObligations(name string) ([]*Obligation, error) {
+	var lm *Lemma
+	idx := -1
+	for i, l := range c.lemmas {
+		if l.Name == name {
+			lm, idx = l, i
+		}
+	}
+	if lm == nil {
+		return nil, fmt.Errorf("no lemma %s", name)
+	}
+	var b strings.Builder
+	// earlier lemmas may be used
+	for _, l := range c.lemmas[:idx] {
+		b.WriteString(c.lemmaAxiom(l) + "\n")
+	}
+	binders, req, ens, _ := c.lemmaFormula(lm, "")
+	for _, bd := range binders {
+		b.WriteString("(declare-fun " + strings.Replace(strings.TrimSuffix(strings.TrimPrefix(bd, "("), ")"), " ", " () ", 1) + ")\n")
+	}
+	if lm.Induct != "" {
+		ib, ireq, iens, itrig := c.lemmaFormula(lm, "_ih")
+		k, kih := "m_"+lm.Induct, "m_"+lm.Induct+"_ih"
+		var kept []string
+		ibody := implies(and(app("<=", "0", kih), app("<", kih, k), ireq), iens)
+		// heaps are shared (not re-quantified) in the hypothesis
+		for _, bd := range ib {
+			if !strings.HasPrefix(bd, "(hp_") {
+				kept = append(kept, bd)
+			}
+		}
+		if itrig != "" {
+			ibody = "(! " + ibody + " " + itrig + ")"
+		}
+		b.WriteString(fmt.Sprintf("(assert (forall (%s) %s))\n", strings.Join(kept, " "), ibody))
+	}
+	b.WriteString("(assert " + req + ")\n(assert (not " + ens + "))\n")
+	o := &Obligation{Name: "lemma:" + name, Fn: "lemma:" + name, Kind: "lemma", Src: "lemma " + name, Where: lm.Where, Query: b.String(), NoLemmas: true}
+	return []*Obligation{o}, nil
+}
+
+type preItem struct {
+	trig    []string // spec symbols in the triggers (lemmas): all must be needed for the lemma to be usable
+	text    string
+	defines string   // spec symbol defined (for spec functions)
+	uses    []string // spec symbols mentioned
+	lemma   bool
+}
+
+type Prelude struct {
+	base  string
+	items []preItem
+	names []string // all spec symbols
+}
+
+func (c *Ctx) specSymbolsIn(text string) []string {
+	var out []string
+	for n := range c.compiled {
+		if containsToken(text, n) {
+			out = append(out, n)
+		}
+	}
+	sort.Strings(out)
+	return out
+}
+
+// prelude: registry prelude + heap-independent helper functions, then the
+// selectable items (spec functions, axioms, lemmas).
+func (c *Ctx) prelude() *Prelude {
 	var ax []string
 	for _, a := range c.axioms {
 		file := c.specFile["axiom:"+a.Name]
@@ -611,7 +732,7 @@ func (c *Ctx) prelude() string {
 			pkg = c.typesPkgs[file.PkgPath]
 		}
 		c.curFile = file
-		env := &Env{c: c, specMode: true, heapParams: map[string]bool{}, vars: map[string]TVal{}, pkg: pkg}
+		env := &Env{c: c, specMode: true, heapParams: map[string]bool{}, vars: map[string]TVal{}, pkg: pkg, file: file}
 		t := env.boolExpr(a.E)
 		if len(env.heapParams) > 0 {
 			panic(genErr("%s: axiom %s reads the heap", a.Where, a.Name))
@@ -619,6 +740,10 @@ func (c *Ctx) prelude() string {
 		ax = append(ax, fmt.Sprintf("(assert (! %s :named ax_%s))", t, sanitize(a.Name)))
 	}
 	c.curFile = nil
+	var lemAx []string
+	for _, l := range c.lemmas {
+		lemAx = append(lemAx, c.lemmaAxiom(l))
+	}
 	var b strings.Builder
 	b.WriteString(c.reg.prelude())
 	if c.needSidx {
@@ -654,11 +779,83 @@ func (c *Ctx) prelude() string {
 		n := sanitize(srt)
 		fmt.Fprintf(&b, "(declare-fun enc_%s (%s) Str)\n(declare-fun dec_%s (Str) %s)\n(assert (forall ((v %s)) (! (= (dec_%s (enc_%s v)) v) :pattern ((enc_%s v)))))\n", n, srt, n, srt, srt, n, n, n)
 	}
+	p := &Prelude{base: b.String()}
 	for _, n := range c.specOrder {
-		b.WriteString(c.compiled[n].def + "\n")
+		def := c.compiled[n].def
+		var uses []string
+		for _, u := range c.specSymbolsIn(def) {
+			if u != n {
+				uses = append(uses, u)
+			}
+		}
+		p.items = append(p.items, preItem{text: def, defines: n, uses: uses})
 	}
 	for _, a := range ax {
-		b.WriteString(a + "\n")
+		p.items = append(p.items, preItem{text: a, uses: c.specSymbolsIn(a)})
+	}
+	for i, l := range lemAx {
+		it := preItem{text: l, uses: c.specSymbolsIn(l), lemma: true}
+		if j := strings.Index(l, ":pattern"); j >= 0 && len(c.lemmas[i].Triggers) > 0 {
+			it.trig = c.specSymbolsIn(l[j:])
+		}
+		p.items = append(p.items, it)
+	}
+	return p
+}
+
+// For selects the prelude items relevant to a query: spec functions it
+// mentions (transitively), and the axioms / lemmas that talk about them.
+func (p *Prelude) For(query string, noLemmas bool) string {
+	needed := map[string]bool{}
+	for _, it := range p.items {
+		if it.defines != "" && containsToken(query, it.defines) {
+			needed[it.defines] = true
+		}
+	}
+	include := make([]bool, len(p.items))
+	for changed := true; changed; {
+		changed = false
+		for i, it := range p.items {
+			if include[i] || (it.lemma && noLemmas) {
+				continue
+			}
+			take := false
+			if it.defines != "" {
+				take = needed[it.defines]
+			} else if len(it.trig) > 0 {
+				take = true
+				for _, u := range it.trig {
+					if !needed[u] {
+						take = false
+					}
+				}
+			} else {
+				for _, u := range it.uses {
+					if needed[u] {
+						take = true
+					}
+				}
+				if len(it.uses) == 0 {
+					take = true
+				}
+			}
+			if take {
+				include[i] = true
+				changed = true
+				for _, u := range it.uses {
+					if !needed[u] {
+						needed[u] = true
+					}
+				}
+			}
+		}
+	}
+	var b strings.Builder
+	b.WriteString(p.base)
+	for i, it := range p.items {
+		if include[i] {
+			b.WriteString(it.text + "\n")
+		}
 	}
 	return b.String()
 }
